@@ -917,8 +917,10 @@ class ClientRequestBase:
         # host_port_subcomponent is None when the URL is a relative URL.
         # but we know we do not have a relative URL here.
         assert host is not None
-        self.headers[hdrs.HOST] = headers.pop(hdrs.HOST, host)
-        self.headers.extend(headers)
+        self.headers[hdrs.HOST] = host
+        # A caller-supplied Host replaces the default one; ``headers`` is
+        # shared between retries and redirect hops and must stay intact.
+        self.headers.update(headers)
 
     def _create_response(
         self,
